@@ -130,3 +130,73 @@ pub fn run_trackers(seed: u64, tier: &str, out: &mut Out) {
         out.emit(&format!("NOMODEL TRACKERS visible={visible} {}", hist.join(",")), &format!(" ORACLE {verdict}"));
     }
 }
+
+/// C11R — whole frames from the getter values: templates of one to three lines holding several documented keys (field
+/// attributes, `bar`, `wide_bar`, `wide_msg` included) are rendered after a random history; the lines handed to the draw
+/// target are compared with the Lean model (`KeyValue.envOf` over the *documented* arm table + `Render.formatState`) fed
+/// the values the public getters return at the same virtual instant.
+pub fn run_render(seed: u64, tier: &str, out: &mut Out) {
+    console::set_colors_enabled(false);
+    let mut rng = Rng::new(seed ^ 0x11e);
+    let n = if tier == "thorough" { 150_000 } else { 4_000 };
+    let t0 = 1_000_000_000_000u64;
+    let keys: [&str; 27] = ["pos", "human_pos", "len", "human_len", "percent", "percent_precise", "bytes", "total_bytes", "decimal_bytes", "decimal_total_bytes",
+        "binary_bytes", "binary_total_bytes", "elapsed_precise", "elapsed", "per_sec", "bytes_per_sec", "decimal_bytes_per_sec", "binary_bytes_per_sec",
+        "eta_precise", "eta", "duration_precise", "duration", "msg", "prefix", "spinner", "bar", "nosuchkey"];
+    let cps = |s: &str| if s.is_empty() { "-".to_string() } else { s.chars().map(|c| (c as u32).to_string()).collect::<Vec<_>>().join(",") };
+    for _ in 0..n {
+        vh::set_auto_advance_ns(0); vh::set_now_ns(t0);
+        let width = *rng.pick(&[30u16, 60, 100, 200]);
+        let len: Option<u64> = match rng.below(8) { 0 => None, 1 => Some(0), 2 => Some(u64::MAX), 3 => Some(1), _ => Some(rng.range(1, 5000)) };
+        let start_pos = match rng.below(8) { 0 => 0, 1 => u64::MAX, 2 => len.unwrap_or(7), 3 => len.unwrap_or(7).saturating_add(3), _ => rng.below(len.unwrap_or(100).saturating_add(1).max(1)) };
+        // template
+        let mut tpl = String::new(); let mut has_spinner = false;
+        let nlines = rng.range(1, 3);
+        for li in 0..nlines {
+            if li > 0 { tpl.push('\n'); }
+            let mut wide_used = false;
+            for ki in 0..rng.range(1, 4) {
+                if ki > 0 { tpl.push_str(*rng.pick(&[" ", " | ", "/", ""])); }
+                if !wide_used && rng.chance(1, 6) { wide_used = true; tpl.push_str(*rng.pick(&["{wide_bar}", "{wide_msg}", "{wide_msg:>}", "{wide_bar:.green/red}"])); continue; }
+                let key = *rng.pick(&keys);
+                if key == "spinner" { has_spinner = true; }
+                let attr = match rng.below(6) { 0 => format!(":{}", rng.pick(&[0u64, 1, 3, 8, 15])), 1 => format!(":>{}", rng.pick(&[2u64, 6, 12])), 2 => format!(":^{}!", rng.pick(&[1u64, 4, 9])), 3 if key != "bar" => ":<".to_string(), _ => String::new() };
+                tpl.push_str(&format!("{{{key}{attr}}}"));
+            }
+        }
+        let (pchars, clusters, cwid): (&str, &str, usize) = *rng.pick(&[("#>-", "35;62;45", 1), ("=>.", "61;62;46", 1), ("█▉▊▋▌▍▎▏  ", "9608;9609;9610;9611;9612;9613;9614;9615;32;32", 1), ("＃＞－", "65283;65310;65293", 2), ("ab", "97;98", 1)]);
+        let rec = Recorder::new(60000, width, false);
+        let pb = ProgressBar::with_draw_target(len, ProgressDrawTarget::term_like(Box::new(rec.clone()))).with_position(start_pos);
+        let style = match ProgressStyle::with_template(&tpl) { Ok(s) => s, Err(_) => continue };
+        pb.set_style(style.tick_strings(&TICKS).progress_chars(pchars));
+        let mut ticks: u64 = 0; let mut now = t0; let mut hist = Vec::new();
+        for _ in 0..rng.below(8) {
+            match rng.below(if has_spinner { 4 } else { 6 }) {
+                0 => { pb.tick(); ticks += 1; hist.push("tick".to_string()); }
+                1 => { let m: String = (0..rng.below(12)).map(|_| *rng.pick(&['a', 'b', 'c', ' ', 'é', '日'])).collect(); pb.set_message(m.clone()); hist.push(format!("msg:{m}")); }
+                2 => { let m: String = (0..rng.below(6)).map(|_| (b'A' + rng.below(26) as u8) as char).collect(); pb.set_prefix(m.clone()); hist.push(format!("prefix:{m}")); }
+                3 => { let d = *rng.pick(&[1u64, 999_999, 1_000_000, 50_000_000, 1_000_000_000, 60_000_000_000, 3_600_000_000_000]); now += d; vh::set_now_ns(now); hist.push(format!("adv:{d}")); }
+                4 => { let d = rng.below(50); pb.inc(d); hist.push(format!("inc:{d}")); }
+                _ => { let p = rng.below(6000); pb.set_position(p); hist.push(format!("set:{p}")); }
+            }
+        }
+        let finished = rng.chance(1, 4);
+        now += 1_000_000_000; vh::set_now_ns(now);
+        { rec.st.lock().unwrap().ops.clear(); }
+        let pb2 = pb.clone();
+        let panicked = std::panic::catch_unwind(std::panic::AssertUnwindSafe(move || { if finished { pb2.abandon(); } else { pb2.tick(); } })).is_err();
+        if !finished { ticks += 1; }
+        let ops = rec.st.lock().unwrap().ops.clone();
+        let mut groups: Vec<Vec<String>> = vec![vec![]];
+        for o in &ops { match o { Op::Line(_) => groups.push(vec![]), Op::Str(s) => groups.last_mut().unwrap().push(s.clone()), _ => {} } }
+        let lines: Vec<String> = if groups.len() == 1 && groups[0].is_empty() { vec![] } else { groups.iter().map(|g| g.first().cloned().unwrap_or_default()).collect() };
+        let shown = lines.iter().map(|l| cps(l).replace(',', ".")).collect::<Vec<_>>().join("|");
+        let tick_str = if finished { "Z" } else { TICKS[(ticks % 4) as usize] };
+        let case = format!("RENDERK {width} 8 tpl={} pos={} len={} elapsed={} eta={} duration={} persec={} msg={} prefix={} tick={} chars={clusters} cwid={cwid} cw=233:1,26085:2,65283:2,65310:2,65293:2",
+            cps(&tpl), pb.position(), pb.length().map_or("none".to_string(), |l| l.to_string()), pb.elapsed().as_nanos(), pb.eta().as_nanos(), pb.duration().as_nanos(),
+            pb.per_sec().to_bits(), cps(&pb.message()), cps(&pb.prefix()), cps(tick_str));
+        std::mem::forget(pb);
+        if panicked { out.emit(&case, &format!("panic ORACLE FAIL panic while drawing tpl={tpl:?} hist={}", hist.join(","))); }
+        else { out.emit(&case, &format!("n={} {shown} ORACLE ok", lines.len())); }
+    }
+}
